@@ -407,3 +407,41 @@ func derivesShallowCalls(v ssa.Value, fn func(*ssa.Call)) {
 		return false
 	})
 }
+
+// rulesC17ord: the tracked-index cache follows the order of Cfg.TrackedStates.
+func (c *Ctx) rulesC17ord() {
+	c.rule("C17.ord", "in every history backend the tracked-index cache (cacheTrackedIdxs, which positions MTimeTracked) is the positional translation Index(Config.TrackedStates): MTimeTracked[i] belongs to TrackedStates[i], the order Index1/ValidateQuery/FindLatest address it by; an index list built in any other order (e.g. by walking the machine's state names) silently swaps the columns")
+	n := 0
+	for _, p := range c.Pkgs {
+		rel := relPkg(p.PkgPath)
+		if !strings.HasPrefix(rel, "pkg/history") {
+			continue
+		}
+		fld := c.fieldAnywhere(rel, "cacheTrackedIdxs")
+		if fld == nil || fld.Pkg() == nil || fld.Pkg().Path() != p.PkgPath {
+			continue
+		}
+		for i, w := range c.writesOfField(fld) {
+			if w.Kind != "assign" {
+				c.fail("C17.ord", fmt.Sprintf("%s: cacheTrackedIdxs write%s is Index(TrackedStates)", funcKey(w.Fn), nth(i)), w.Instr.Pos(), "in-place write to the tracked-index cache")
+				continue
+			}
+			n++
+			good := false
+			if call, ok := w.Val.(*ssa.Call); ok && calleeName(&call.Call) == "Index" {
+				args := call.Call.Args
+				if len(args) > 0 {
+					last := args[len(args)-1]
+					if f := loadOfField(last); f != nil && f.Name() == "TrackedStates" {
+						good = true
+					}
+				}
+			}
+			c.check(good, "C17.ord", fmt.Sprintf("%s: cacheTrackedIdxs write%s is Index(TrackedStates)", funcKey(w.Fn), nth(i)), w.Instr.Pos(),
+				"stored "+render(w.Val)+": not the positional Index() of Config.TrackedStates, so MTimeTracked columns no longer line up with TrackedStates")
+		}
+	}
+	if n < 4 {
+		c.undecided(fmt.Sprintf("C17.ord: only %d cacheTrackedIdxs initialisations found (memory, bbolt, badger, gorm expected)", n))
+	}
+}
